@@ -37,6 +37,9 @@ fn main() {
         "C03" => verif_harness::props::c03::run(&cfg),
         "C04" => verif_harness::props::c04::run(&cfg),
         "C05" => verif_harness::props::c05::run(&cfg),
+        "C10" => verif_harness::props::c10::run(&cfg),
+        "C11" => verif_harness::props::c11::run(&cfg),
+        "C12" => verif_harness::props::c12::run(&cfg),
         "STRUCT" => verif_harness::props::structs::run_model(&cfg),
         _ => {
             eprintln!("unknown property {prop}");
